@@ -66,7 +66,7 @@ def gen(rng, tier):
         else:
             del s[i]
         add(bytes(s).decode("utf-8", "replace"), "mutated")
-    for v in BOUNDS + [rng.randrange(2 ** 31) for _ in range(50)] + [7, 2 ** 31 - 1]:
+    for v in BOUNDS + [rng.randrange(2 ** 31) for _ in range(50)] + [7, 2 ** 31 - 1, 2 ** 31 - 2]:
         if v < 2 ** 64:
             cases.append(Case("path.for_index %d" % v, tags=("for_index",)))
     # derivation agrees between a text and its printed form (and never aliases)
@@ -75,6 +75,9 @@ def gen(rng, tier):
         cases.append(Case("hdk.derive %s %s" % (seed, hx(s)), tags=("derive",)))
     from vlib import routes
     cases += routes.add_routes(cases, rng, 80, tier)
+    # every boundary account index through the command line too (flag or environment)
+    bset = set(BOUNDS) | {7, 2 ** 31 - 1, 2 ** 31 - 2}
+    cases += routes.add_routes([c for c in cases if c.line.startswith("path.for_index ") and int(c.line.split(" ")[1]) in bset], rng, 10 ** 6, "quick")
     return cases
 
 
